@@ -790,7 +790,7 @@ impl Prop for C03 {
     fn cases(&self, tier: Tier, seed: u64) -> Vec<Value> {
         let mut groups: Vec<Value> = Vec::new();
         // exhaustive alphabet after a valid greeting (codec level)
-        let maxlen = tier.pick(5, 6);
+        let maxlen = tier.pick(6, 7);
         for p0 in 0..ALPHA.len() {
             let units: Vec<Value> = (0..ALPHA.len())
                 .map(|p1| json!({"kind": "exh", "level": "codec", "p0": p0, "p1": p1, "maxlen": maxlen}))
@@ -901,7 +901,7 @@ impl Prop for C03 {
 
     fn floors(&self, tier: Tier) -> Vec<(&'static str, u64)> {
         vec![
-            ("exhaustive_streams", tier.pick(100_000, 1_000_000)),
+            ("exhaustive_streams", tier.pick(1_000_000, 10_000_000)),
             ("reached_command_parser", 10_000),
             ("reached_long_size_path", 40),
             ("multipart_over_1000_frames", 4),
